@@ -118,7 +118,12 @@ class Context(object):
     def _add(self, kind, priority, func, args):
         if not callable(func):
             raise TypeError('callback must be callable')
-        src = Source(SourceId(self.next_id), kind, priority, func, args)
+        # identifiers are unique across all contexts of the interpreter (as they are
+        # process-wide in real GLib): a stale id kept by an object of a discarded world
+        # (e.g. released from a __del__) can never hit a source of a live one
+        global _NEXT_SOURCE_ID
+        src = Source(SourceId(_NEXT_SOURCE_ID), kind, priority, func, args)
+        _NEXT_SOURCE_ID += 1
         self.next_id += 1
         self.sources.append(src)
         return src
@@ -214,6 +219,7 @@ class Context(object):
 
 
 _current = None
+_NEXT_SOURCE_ID = 1
 
 
 def set_current(ctx):
@@ -280,6 +286,9 @@ def io_add_watch(channel, priority_, condition=None, *cb_and_user_data, **kwargs
 
 
 def source_remove(tag):
+    if _current is None:
+        # called from a finaliser of an object whose world is gone
+        return False
     return _ctx().remove(tag)
 
 
